@@ -73,3 +73,20 @@ Qed.
 
 Example history_example_Inv : Inv (run_hist busy3v history_example).
 Proof. apply history_keeps_Inv; [exact busy3_Inv|exact history_example_valid]. Qed.
+
+(* a replace hit by a fault while the new workload is being deployed: a valid step, the invariant is kept *)
+Definition history_example2 : list hstep :=
+  [ (OReplace 11 [mkWid 7 0 0], Some 9%nat); (ORealloc (mkWid 7 0 0) (50, 100)%Z, None) ].
+
+Example history_example2_valid : valid_hist busy3v history_example2.
+Proof.
+  unfold history_example2. cbn [valid_hist]. split; [|split; exact I].
+  unfold valid_step. cbn [fst]. split.
+  - intros n i _. split; reflexivity.
+  - intros m Hm. vm_compute in Hm. repeat (destruct Hm as [<-|Hm]; [exact (fun x => x)|]). destruct Hm.
+Qed.
+
+Example history_example2_reports_failure :
+  out (step_world busy3v (OReplace 11 [mkWid 7 0 0], Some 9%nat)) =
+  [MClose; MReplace (mkWid 7 0 0) None false (Some EInjected)].
+Proof. vm_compute. reflexivity. Qed.
